@@ -641,7 +641,23 @@ pub fn c03_sum(c: &mut Ctx) {
     let s2 = guard(|| w(tfs.iter().sum::<TwoFloat>()));
     let s3 = guard(|| w(fs.iter().copied().sum::<TwoFloat>()));
     let s4 = guard(|| w(fs.iter().sum::<TwoFloat>()));
+    // iterator adaptors with different size hints must not change the result
+    let s5 = guard(|| w(tfs.iter().copied().filter(|_| true).sum::<TwoFloat>()));
+    let s6 = guard(|| w(tfs.iter().take(len).chain(tfs.iter().skip(len)).sum::<TwoFloat>()));
+    let s7 = guard(|| w(fs.iter().copied().map(|x| x).skip(0).sum::<TwoFloat>()));
+    let rev_fold = guard(|| {
+        let mut acc = TwoFloat::from(0.0);
+        for x in tfs.iter().rev() {
+            acc = acc + *x;
+        }
+        w(acc)
+    });
+    let s8 = guard(|| w(tfs.iter().rev().sum::<TwoFloat>()));
     for (nm, s, f) in [
+        ("Sum over filter()", &s5, &fold_tf),
+        ("Sum over take().chain(skip())", &s6, &fold_tf),
+        ("Sum<f64> over map().skip(0)", &s7, &fold_f),
+        ("Sum over rev()", &s8, &rev_fold),
         ("Sum<TwoFloat>", &s1, &fold_tf),
         ("Sum<&TwoFloat>", &s2, &fold_tf),
         ("Sum<f64>", &s3, &fold_f),
